@@ -16,16 +16,28 @@ EXPLANATION = (
     "shared _prec_rounding list, a shared number class, a class-level slot) makes b's observation depend on n, and z3 returns the "
     "n that exposes it; the counterexample is replayed on real context objects.  MPContext.clone is executed from an arbitrary "
     "entry precision P0 (not necessarily the image of a dps): the clone shows exactly (P0, prec_to_dps(P0)) and owns its own "
-    "precision list and number classes.  NOT covered: coupling through results (module-level caches of constants are the subject "
-    "of C33; gamma/Bernoulli/zeta caches are outside), 'a clone computes the same values' beyond starting at the same precision."
+    "precision list and number classes.  Coupling through results: every function of the loaded mpmath modules (outside libmp) "
+    "that takes the context as its first parameter and whose source may store into a container is entered through a fresh clone "
+    "with arbitrary arguments (defaulted parameters keep their defaults), its callees replaced by arbitrary results, and executed "
+    "over all its paths; no path may store a call-dependent value into a container that all contexts share (module global, "
+    "default argument, class attribute; the set is computed from the live modules).  A path that does is confirmed natively "
+    "before it is reported: the function's documented example calls are evaluated by context Y alone and by Y after another "
+    "context X (mp at 200 bits, a clone at 30/40 bits, fp) evaluated the same calls, each sequence in a fresh process; a "
+    "difference in number type or value is the violation, no difference leaves the obligation inconclusive.  NOT covered: the "
+    "libmp-level caches (constants: C17/C33; Bernoulli, gamma, zeta tables are keyed by precision and hold raw tuples), stores "
+    "made by callees that do not take the context, functions the abstract scan cannot finish (listed as inconclusive), 'a clone "
+    "computes the same values' beyond starting at the same precision and owning its caches."
 )
 TRUSTED = ["z3 (QF_UFBV)", "pysym interpreter semantics (heap overlay: reads of b go through the same heap as the writes of a)",
-           "the five context objects are representative of 'mp, a clone of mp, fp, iv'"]
+           "the five context objects are representative of 'mp, a clone of mp, fp, iv'",
+           "shared-store scan: callees are arbitrary (their own stores are found when they are scanned themselves, if they take the context)"]
 ASSUMPTIONS = ["only configuration state is observed (precision, dps, operator precision/rounding, pretty, trap_complex)",
                "prec_to_dps / dps_to_prec uninterpreted (as in C11)"]
-BUDGET = {'quick': dict(ob_deadline_s=60, total_s=120), 'thorough': dict(ob_deadline_s=300, total_s=600)}
+BUDGET = {'quick': dict(ob_deadline_s=60, total_s=300), 'thorough': dict(ob_deadline_s=300, total_s=600)}
 BOUNDS = {'quick': 'contexts {mp, clone, clone of clone, iv, fp}; all 20 ordered pairs; 8 kinds of change; new precision 1..2^20; clone from entry precision 1..2^20',
-          'thorough': 'same as quick'}
+          'thorough': 'same as quick, longer deadlines'}
+BOUNDS['quick'] += ('; shared stores: one obligation per context-taking function that may store (about 110), loops unrolled twice, callees '
+                    'stubbed, nested local functions inlined to depth 3, solver/scan deadline 20 s (thorough 90 s)')
 
 
 def obligations(tier, seed=0):
@@ -42,4 +54,9 @@ def obligations(tier, seed=0):
     if tier == 'thorough':
         # the same with more time per obligation (the grid is already exhaustive over pairs and kinds of change)
         obs = [(s_, dict(p_, _t=120)) for s_, p_ in obs]
+    # coupling through results: every function taking the context that may store into a container is scanned for stores of
+    # call-dependent values into containers shared by all contexts
+    from checks.fam_ctx import store_candidates
+    for mn, qn in store_candidates():
+        obs.append((FX + 'shared_store', dict(mod=mn, fn=qn, _t=20 if tier == 'quick' else 90)))
     return obs
